@@ -28,7 +28,7 @@ DT = dict(F32=np.float32, F64=np.float64, I16=np.int16, I32=np.int32)
 def cases(tier, seed):
     R = random.Random("c14/%d" % seed)
     out = []
-    n = 44 if tier == "quick" else 500
+    n = 44 if tier == "quick" else 2000
     writers = ["write_image", "write_image", "study", "sample_clobber", "sample_update", "multi_tan", "write_image_int"]
     for i in range(n):
         w = writers[i % len(writers)]
